@@ -642,8 +642,63 @@ class ControllerOrdering(_Base):
     def canary(self, st, old, result, exc):
         yield 'canary:limiter_before_adaptivity', result.index('StepSizeLimiter') < result.index('Adaptivity')
 
+class LimitsFromAdaptivityParams(_Base):
+    """limits configured on the adaptivity controller itself reach the limiters: for EVERY non-empty subset of the limiter keys passed to Adaptivity
+    a StepSizeLimiter is registered whose limits are the given values (absolute limits on StepSizeLimiter, slope limits on the StepSizeSlopeLimiter it
+    loads); without any limiter key none is registered"""
 
-CONTRACTS = [DetermineRestart, RestartBookkeeping, SpreadStepSizes, OptimalStepSize, NewStepSize, AdaptivityRestart,
+    name = 'AdaptivityBase.dependencies [limits]'
+    target = (CCD + 'adaptivity.py', 'AdaptivityBase.dependencies')
+    coarse_levels = False
+    native = False
+
+    KEYS = ('dt_min', 'dt_max', 'dt_slope_min', 'dt_slope_max', 'dt_rel_min_slope')
+    VALS = dict(dt_min=1e-3, dt_max=0.5, dt_slope_min=0.25, dt_slope_max=3.0, dt_rel_min_slope=0.125)
+
+    def instances(self, tier):
+        import itertools
+
+        subsets = [()] + [c for r in (1, 2, 3, 5) for c in itertools.combinations(self.KEYS, r)]
+        if tier == 'quick':
+            subsets = [s_ for s_ in subsets if len(s_) <= 1 or len(s_) == 5] + [('dt_min', 'dt_slope_max')]
+        return [dict(keys=list(s_)) for s_ in subsets]
+
+    def build(self, inst, mk):
+        A = cls_of(CCD + 'adaptivity.py', 'Adaptivity')
+        st = State(inst=inst)
+
+        def call():
+            c, _ = make_ctrl(mk, 1, conv={A: dict(e_tol=1e-5, **{k: self.VALS[k] for k in inst['keys']})})
+            return c
+
+        st.call = call
+        return st
+
+    def post(self, st, old, result, exc):
+        yield 'returns_normally', exc is None
+        if exc is not None:
+            return
+        keys = st.inst['keys']
+        by = {}
+        for C in result.convergence_controllers:
+            by.setdefault(type(C).__name__, []).append(C)
+        lim, slope = by.get('StepSizeLimiter', []), by.get('StepSizeSlopeLimiter', [])
+        if not keys:
+            yield 'no_limits_no_limiter', not lim and not slope
+            return
+        yield 'a_limiter_is_registered_for_any_configured_limit', len(lim) == 1
+        if len(lim) != 1:
+            return
+        for k in keys:
+            holder = lim[0] if k in ('dt_min', 'dt_max') else (slope[0] if len(slope) == 1 else None)
+            yield f'{k}:reaches_the_limiter', holder is not None and holder.params.get(k) == self.VALS[k]
+
+    def canary(self, st, old, result, exc):
+        yield 'canary:never_a_limiter', not any(type(C).__name__ == 'StepSizeLimiter' for C in result.convergence_controllers) and bool(st.inst['keys'])
+
+
+
+CONTRACTS = [LimitsFromAdaptivityParams, DetermineRestart, RestartBookkeeping, SpreadStepSizes, OptimalStepSize, NewStepSize, AdaptivityRestart,
              Limiter, SlopeLimiter, ConvergenceControlOrder, ControllerOrdering]
 
 
